@@ -341,6 +341,11 @@ BUILTINS = {
     "DeprecationWarning": DeprecationWarning,
     "ModuleNotFoundError": ModuleNotFoundError,
     "NotImplementedError": NotImplementedError,
+    "ResourceWarning": ResourceWarning, "RuntimeWarning": RuntimeWarning,
+    "FutureWarning": FutureWarning, "Warning": Warning,
+    "Exception": Exception, "BaseException": BaseException,
+    "TypeError": TypeError, "OverflowError": OverflowError,
+    "print": lambda *a, **k: None,
 }
 
 _BIN = {ast.Add: operator.add, ast.Sub: operator.sub, ast.Mult: operator.mul,
@@ -466,7 +471,7 @@ class Mini:
         elif isinstance(s, ast.For):
             it = self.expr(s.iter, env, loc)
             try:
-                items = list(it)
+                items = _live_iter(it)
             except TypeError:
                 raise MiniError(f"cannot iterate `{txt(s.iter)}` in the model")
             broke = False
@@ -491,13 +496,22 @@ class Mini:
                 except _Continue:
                     continue
         elif isinstance(s, ast.With):
+            cms = []
             for it in s.items:
                 cm = self.expr(it.context_expr, env, loc)
                 ent = getattr(cm, "__enter__", None)
                 v = ent() if callable(ent) else cm
+                cms.append(cm)
                 if it.optional_vars is not None:
                     self.assign(it.optional_vars, v, env, loc)
-            self.block(s.body, env, loc)
+            try:
+                self.block(s.body, env, loc)
+            finally:
+                # contexts are left on every exit (return, break, fault)
+                for cm in reversed(cms):
+                    ex = getattr(cm, "__exit__", None)
+                    if callable(ex):
+                        ex(None, None, None)
         elif isinstance(s, ast.Return):
             raise _Return(None if s.value is None
                           else self.expr(s.value, env, loc))
@@ -771,6 +785,31 @@ class Mini:
         except TypeError as ex:
             raise MiniError(f"comparison `{txt(node)}`: {ex}")
         raise MiniError(f"comparison operator in `{txt(node)}`")
+
+
+def _live_iter(it):
+    """iterate like CPython: a list is walked by position against its live
+    length (so removing inside the loop skips elements); a dict / set must
+    not change size"""
+    if isinstance(it, list):
+        def gen():
+            i = 0
+            while i < len(it):
+                yield it[i]
+                i += 1
+        return gen()
+    if isinstance(it, (dict, set)):
+        def gen2():
+            n = len(it)
+            for x in list(it):
+                if len(it) != n:
+                    raise ModelFault("container changed size during "
+                                     "iteration")
+                yield x
+            if len(it) != n:
+                raise ModelFault("container changed size during iteration")
+        return gen2()
+    return iter(list(it))
 
 
 def _walk_fn(func):
